@@ -11,6 +11,10 @@ class Hang(Exception):
   pass
 
 
+class ChartFault(Exception):
+  """raised by a generated handler whose table says so (fault injection: a user handler that fails)"""
+
+
 class FakeClock:
   """Replacement for miros.hsm.stdlib_datetime: now() follows a scripted behaviour."""
 
@@ -87,6 +91,9 @@ class Script:
         m[1], m[2] = r.signal_name, (r.payload if isinstance(r.payload, int) else 0)
     elif op == "scribble":
       self.mark(["scribble", ef[1], 0]); hsm.scribble(ef[1])
+    elif op == "raise":
+      self.mark(["raise", "", 0])
+      raise ChartFault("handler failed on purpose")
     else:
       raise ValueError(ef)
 
